@@ -12,6 +12,7 @@ bModule  == <<109,111,100,117,108,101>>                                         
 bLdJson  == <<97,112,112,108,105,99,97,116,105,111,110,47,108,100,43,106,115,111,110>>             \* application/ld+json
 bTemplate == <<116,101,120,116,47,116,101,109,112,108,97,116,101>>                                 \* text/template
 bJsCharset == bTextJs \o <<SEMI, SP>> \o bCharset \o <<EQ>> \o bUtf8                               \* text/javascript; charset=UTF-8
+bSvgCharset == bSvg \o <<SEMI>> \o bCharset \o <<EQ>> \o bUtf8                                          \* image/svg+xml;charset=UTF-8
 bScss    == <<116,101,120,116,47,120,45,115,99,115,115>>                                           \* text/x-scss
 InlineParams == << <<bInline, b1>> >>
 NoParams == <<>>
